@@ -85,7 +85,7 @@ def main():
          "hooks": {"guard": "DANMAR_CPPCHECK_VERIF",
                    "enable": "every variant under /verif/build is compiled with -DDANMAR_CPPCHECK_VERIF by vlib/build.py (cmake+ninja from /repo's working tree)",
                    "baseline_off_cmd": "cmake --build /repo/_build -j16 && ctest --test-dir /repo/_build -j8 --timeout 900",
-                   "source_commits": [],
+                   "source_commits": ["5a71faf"],
                    "add_only": True},
          "engines": [{"name": "vlib", "path": "vlib/", "serves_properties": [c["property_id"] for c in checks],
                       "kind_free_text": "python drivers (props/Cxx.py) over: native/vsched.c (LD_PRELOAD deviation-bounded scheduler for the real "
